@@ -116,3 +116,22 @@ def called_defaults():
                         args = pos + [f"{k}={vals[k]}" for k in kws]
                         out.append(f"Select(ds, lambda e: ({head}: {body})({', '.join(args)}))")
     return out
+
+
+# ----------------------------------------------------------------------------------------------------------------
+# and / or / not used for their VALUE over operands that are not truth values, with constant operands in every position
+# (written out, through a called lambda's flag argument, through a constant projection)
+def bool_values():
+    ints = ["Count(e.jets)", "e.a", "e.a - 1"]
+    consts = ["True", "False", "0", "1", "(lambda f: f)(True)", "(True, 0)[0]", "(lambda: False)()"]
+    out = []
+    for i in ints:
+        for c in consts:
+            for tpl in ("{i} and {c}", "{c} and {i}", "{i} or {c}", "{c} or {i}", "({i} and {c}, {i} or {c})", "{i} and {c} and {i}",
+                        "{i} or {c} or {i}", "not ({i} and {c})", "({i} and {c}) if {i} > 0 else ({i} or {c})"):
+                out.append(f"Select(ds, lambda e: {tpl.format(i=i, c=c)})")
+        out.append(f"Select(Select(ds, lambda e: ({i}, True)), lambda t: t[0] and t[1])")
+        out.append(f"Select(ds, lambda e: (lambda x, flag: x and flag)({i}, True))")
+        out.append(f"Select(ds, lambda e: (lambda x, flag: flag or x)({i}, flag=False))")
+        out.append(f"Select(ds, lambda e: Select(e.jets, lambda j: j.pt and True))")
+    return sorted(set(out))
